@@ -197,6 +197,21 @@ func (p *Prog) Origins(v ssa.Value, o OriginOpts) []ssa.Value {
 			} else {
 				leaf(v)
 			}
+		case *ssa.Alloc:
+			// a local struct reached through one of its fields: it holds what was stored into it as a whole
+			if o.ThroughFieldLoad && x.Referrers() != nil {
+				n := 0
+				for _, r := range *x.Referrers() {
+					if st, ok := r.(*ssa.Store); ok && st.Addr == ssa.Value(x) {
+						n++
+						walk(st.Val, d+1)
+					}
+				}
+				if n > 0 {
+					return
+				}
+			}
+			leaf(v)
 		case *ssa.BinOp:
 			if o.ThroughBinOp {
 				walk(x.X, d+1)
